@@ -16,6 +16,7 @@ import vcommon as vc
 import gen_hostmodel as gen
 import monitors_hostmodel as mon
 import hostops
+import compose
 
 PROPERTIES = ["C01", "C02", "C03", "C04", "C05", "C09", "C10", "C11", "C12", "C16", "C17"]
 
@@ -164,6 +165,9 @@ def check(ctx, replay=None):
     # operation-level tie: arbitrary sequences of public HostPool calls against the
     # CellDefs/LandDefs functions the cell-level theorems are about (C01-C05, C10, C11)
     hostops.part(ctx, pid, replay)
+    # C09: Model::run_step against the same actions applied one by one outside the model
+    # (public action classes, legacy Simulation methods) and disabled-input influence
+    compose.part(ctx, pid, replay)
     if replay:
         class S:  # a replay file is a sequence of case blocks
             def __init__(self, t):
@@ -248,7 +252,10 @@ def weather_part(ctx, replay):
             means = [rng.choice(["0", "1", "1/2", "1/4", "3/4", "1/8", "7/8", "1/1024", "1023/1024"]) for _ in range(r * c)]
             if 0.08 <= kind < 0.2:
                 means[rng.randrange(r * c)] = rng.choice(["-1/8", "9/8", "2", "-1", "1025/1024", "-1/1024"])
-            sds = [rng.choice(["1/8", "1/2", "1", "2", "8", "1/64"]) for _ in range(sr * sc)]
+            # deviations: positive, and exactly 0 ("no uncertainty" - what the repository's own
+            # weather test uses; the coefficient is then the mean itself, still to be validated)
+            sdpool = ["1/8", "1/2", "1", "2", "8", "1/64", "0", "0"] if rng.random() < 0.7 else ["0"]
+            sds = [rng.choice(sdpool) for _ in range(sr * sc)]
             cases.append("W %d %d %d %d %d %s | %s" % (rng.randint(1, 10 ** 6), r, c, sr, sc, " ".join(means), " ".join(sds)))
     if not cases:
         return stats
